@@ -141,7 +141,11 @@ func SolveAll(obls []*Obl, timeoutS int, par int) map[string]SolveResult {
 			if o.Expect != "sat" {
 				mv = o.ModelVars
 			}
-			r := Solve(o.Name, o.Script, timeoutS, mv)
+			to := timeoutS
+			if o.Expect == "sat" && to > 6 {
+				to = 6 // reachability/vacuity covers: "unknown" is tolerated, so do not wait long
+			}
+			r := Solve(o.Name, o.Script, to, mv)
 			mu.Lock()
 			out[o.Name] = r
 			mu.Unlock()
